@@ -132,3 +132,39 @@ package tls
 //@ at dv assert [dsa-over-that-digest-key-and-decoded-pair] dv.pub == as(pubKey, *dsa.PublicKey) && dv.hash == gh.res0 && dv.r == dsaSig.R && dv.s == dsaSig.S && dsr.x == dsaSig.R && dss.x == dsaSig.S
 //@ at eu assert [ecdsa-value-is-der-decoded-from-the-signature] eu.b == sig.Signature
 //@ at ev assert [ecdsa-over-that-digest-key-and-decoded-pair] ev.pub == as(pubKey, *ecdsa.PublicKey) && ev.hash == gh.res0 && ev.r == ecdsaSig.R && ev.s == ecdsaSig.S && esr.x == ecdsaSig.R && ess.x == ecdsaSig.S
+
+// The encoder mirrors the decoder arm by arm: fixed-width integers in big-endian order, uint24 as
+// the low three octets of a value below 2^24, enums and length prefixes in exactly info.count
+// octets after the same bound check the decoder applies, and no index out of range for field
+// sizes of at most eight octets.
+//@ func marshalField
+//@ props C09 C04
+//@ modifies nothing
+//@ frame-trusted writes only into the bytes.Buffer it is given and into scratch slices it allocates
+//@ site WriteByte#1 as w8
+//@ site PutUint16#1 as p16
+//@ site PutUint32#1 as p24
+//@ site PutUint32#2 as p32
+//@ site PutUint64#1 as p64
+//@ site PutUint64#2 as penum
+//@ site check#1 as cke
+//@ site PutUint64#3 as plen
+//@ site check#2 as ckl
+//@ site check#3 as cks
+//@ site PutUint64#4 as psize
+//@ site marshalField#1 as rec
+//@ requires out != nil
+//@ requires info != nil ==> info.count <= 8
+//@ loop 1 invariant info != nil ==> info.count <= 8
+//@ loop 2 invariant info != nil ==> info.count <= 8
+//@ loop 3 invariant 0 <= i && len(bytes) == datalen
+//@ loop 4 invariant 0 <= i && len(bytes) == datalen && (info != nil ==> info.count <= 8)
+//@ loop 5 invariant info != nil ==> info.count <= 8
+//@ at p24 assert [uint24-only-below-2-to-the-24-as-the-low-three-octets] p24.v == uint32(i) && i <= 16777215 && len(scratch) == 4
+//@ at cke assert [enum-bound-checked-exactly-as-the-decoder-does] cke.val == i && cke.i == *info
+//@ at penum assert [enum-written-big-endian-after-the-check] penum.v == i && cke.res == nil && len(scratch) == 8
+//@ at ckl assert [byte-vector-length-checked-exactly-as-the-decoder-does] ckl.val == uint64(datalen) && ckl.i == *info
+//@ at plen assert [length-prefix-is-the-number-of-bytes] plen.v == uint64(datalen) && len(scratch) == 8
+//@ at cks assert [vector-size-checked-exactly-as-the-decoder-does] cks.val == size && cks.i == *info
+//@ at psize assert [size-prefix-is-the-encoded-size-of-the-elements] psize.v == size && cks.res == nil && len(scratch) == 8
+//@ at rec assert [struct-field-encoded-with-its-own-tag-info] rec.info == fieldInfo
